@@ -268,3 +268,10 @@ def h7(ctx: Ctx) -> None:
     from .c13 import r5 as registration_rule
 
     registration_rule(ctx)
+
+
+@rule("C16.H8", "mechanism shared with C09: a halt ends with its session at the latest: at every session start each market's running flag is set from the new session's execution switch, whatever it was before", "T3 + T4 (same rule as C09.R2)", floor=6)
+def h8(ctx: Ctx) -> None:
+    from .c09 import r2 as switch_rule
+
+    switch_rule(ctx)
